@@ -7,16 +7,17 @@ import json, os, subprocess, sys, shutil, re, time
 from concurrent.futures import ThreadPoolExecutor
 HERE = os.path.dirname(os.path.dirname(os.path.abspath(__file__)))
 ids = sys.argv[1:] or sorted(os.listdir(os.path.join(HERE, "seeded")))
-ids = [i for i in ids if os.path.isdir(os.path.join(HERE, "seeded", i))]
+ids = [i for i in ids if os.path.isdir(os.path.join(HERE, "seeded", i.split(":")[0]))]
 TIER = os.environ.get("SEED_TIER", "quick")
 
-def run(mid, prop=None):
-    prop = prop or mid[:3]
-    wt = "/tmp/seed_%s" % mid
+def run(spec, prop=None):
+    mid = spec.split(":")[0]
+    prop = spec.split(":")[1] if ":" in spec else mid[:3]
+    wt = "/tmp/seed_%s_%s" % (mid, prop)
     subprocess.run(["git", "-C", "/repo", "worktree", "remove", "--force", wt], stdout=subprocess.DEVNULL, stderr=subprocess.DEVNULL)
     subprocess.run(["git", "-C", "/repo", "worktree", "add", "-q", "--detach", wt, "HEAD"], check=True)
     subprocess.run(["git", "-C", wt, "apply", os.path.join(HERE, "seeded", mid, "patch.diff")], check=True)
-    env = dict(os.environ, VERIF_REPO=wt, VERIF_EVIDENCE_DIR="/tmp/seed_ev_%s" % mid, VERIF_REPLAYS_DIR=os.path.join(HERE, "seeded", mid, "replays"), VERIF_JOBS="6")
+    env = dict(os.environ, VERIF_REPO=wt, VERIF_EVIDENCE_DIR="/tmp/seed_ev_%s_%s" % (mid, prop), VERIF_REPLAYS_DIR=os.path.join(HERE, "seeded", mid, "replays"), VERIF_JOBS="6")
     t0 = time.time()
     p = subprocess.run([os.path.join(HERE, "check"), prop, "--tier", TIER], env=env, stdout=subprocess.PIPE, stderr=subprocess.STDOUT, text=True)
     out = p.stdout
@@ -24,10 +25,10 @@ def run(mid, prop=None):
     res = {"id": mid, "property": prop, "tier": TIER, "exit": p.returncode, "wall_s": round(time.time() - t0),
            "violations": [{"harness": h, "check": c[:200]} for h, c in viol][:8],
            "inconclusive": re.findall(r"INCONCLUSIVE.*", out)[:4]}
-    open("/tmp/seed_%s.log" % mid, "w").write(out)
+    open("/tmp/seed_%s_%s.log" % (mid, prop), "w").write(out)
     subprocess.run(["git", "-C", "/repo", "worktree", "remove", "--force", wt])
-    shutil.rmtree(os.path.join(HERE, ".build", "alt-tmp_seed_%s" % mid), ignore_errors=True)
-    shutil.rmtree("/tmp/seed_ev_%s" % mid, ignore_errors=True)
+    shutil.rmtree(os.path.join(HERE, ".build", "alt-tmp_seed_%s_%s" % (mid, prop)), ignore_errors=True)
+    shutil.rmtree("/tmp/seed_ev_%s_%s" % (mid, prop), ignore_errors=True)
     print(json.dumps(res), flush=True)
     return res
 
